@@ -11,30 +11,34 @@ import (
 
 // Event mirrors impl.Event for the upstream logger interface.
 type Event struct {
-	Kind   string
-	Op     byte
-	Pc     uint64
-	Gas    uint64
-	Cost   uint64
-	Depth  int
-	Err    string
-	HasErr bool
-	From   common.Address
-	To     common.Address
-	Self   common.Address
-	Create bool
-	Input  []byte
-	Value  *big.Int
-	Output []byte
-	Used   uint64
-	Stack  []uint256.Int
-	Mem    []byte
-	RData  []byte
+	Kind        string
+	Op          byte
+	Pc          uint64
+	Gas         uint64
+	Cost        uint64
+	Depth       int
+	Err         string
+	HasErr      bool
+	From        common.Address
+	To          common.Address
+	Self        common.Address
+	Create      bool
+	Input       []byte
+	Value       *big.Int
+	Output      []byte
+	Used        uint64
+	Stack       []uint256.Int
+	Mem         []byte
+	RData       []byte
+	CGas        uint64 // scope.Contract.Gas at the time of the callback
+	ErrIsRevert bool
+	ErrIsOog    bool
 }
 
 type Recorder struct {
 	Events  []Event
 	KeepMem bool
+	OnState func(e *Event, scope *ethvm.ScopeContext)
 }
 
 func cp(b []byte) []byte {
@@ -67,14 +71,14 @@ func (r *Recorder) CaptureStart(env *ethvm.EVM, from common.Address, to common.A
 }
 func (r *Recorder) CaptureEnd(output []byte, gasUsed uint64, err error) {
 	s, h := errStr(err)
-	r.Events = append(r.Events, Event{Kind: "end", Output: cp(output), Used: gasUsed, Err: s, HasErr: h})
+	r.Events = append(r.Events, Event{Kind: "end", Output: cp(output), Used: gasUsed, Err: s, HasErr: h, ErrIsRevert: err == ethvm.ErrExecutionReverted, ErrIsOog: err == ethvm.ErrOutOfGas})
 }
 func (r *Recorder) CaptureEnter(typ ethvm.OpCode, from common.Address, to common.Address, input []byte, gas uint64, value *big.Int) {
 	r.Events = append(r.Events, Event{Kind: "enter", Op: byte(typ), From: from, To: to, Input: cp(input), Gas: gas, Value: cpBig(value)})
 }
 func (r *Recorder) CaptureExit(output []byte, gasUsed uint64, err error) {
 	s, h := errStr(err)
-	r.Events = append(r.Events, Event{Kind: "exit", Output: cp(output), Used: gasUsed, Err: s, HasErr: h})
+	r.Events = append(r.Events, Event{Kind: "exit", Output: cp(output), Used: gasUsed, Err: s, HasErr: h, ErrIsRevert: err == ethvm.ErrExecutionReverted, ErrIsOog: err == ethvm.ErrOutOfGas})
 }
 func (r *Recorder) step(kind string, pc uint64, op ethvm.OpCode, gas, cost uint64, scope *ethvm.ScopeContext, rData []byte, depth int, err error) {
 	s, h := errStr(err)
@@ -82,6 +86,7 @@ func (r *Recorder) step(kind string, pc uint64, op ethvm.OpCode, gas, cost uint6
 	if scope != nil {
 		if scope.Contract != nil {
 			e.Self = scope.Contract.Address()
+			e.CGas = scope.Contract.Gas
 		}
 		if scope.Stack != nil {
 			e.Stack = append([]uint256.Int{}, scope.Stack.Data()...)
@@ -89,6 +94,9 @@ func (r *Recorder) step(kind string, pc uint64, op ethvm.OpCode, gas, cost uint6
 		if r.KeepMem && scope.Memory != nil {
 			e.Mem = cp(scope.Memory.Data())
 		}
+	}
+	if r.OnState != nil {
+		r.OnState(&e, scope)
 	}
 	r.Events = append(r.Events, e)
 }
